@@ -15,7 +15,8 @@ def kernels():
     G = 'github.com/gopherjs/gopherjs/'
     return [gokernel.Kernel('C17', 'compiler/internal/analysis', ['escape_harness.go'], init=[G + 'compiler/internal/analysis'] + STD),
             gokernel.Kernel('C17', 'compiler/internal/dce', ['order_harness_dce.go'], init=[G + 'compiler/internal/dce'] + STD),
-            gokernel.Kernel('C17', 'compiler/sources', ['order_harness_sources.go'], init=[G + 'compiler/sources'] + STD)]
+            gokernel.Kernel('C17', 'compiler/sources', ['order_harness_sources.go'], init=[G + 'compiler/sources'] + STD),
+            gokernel.Kernel('C17', 'compiler/internal/typeparams', ['order_harness_instances.go'], init=[G + 'compiler/internal/typeparams', 'golang.org/x/tools/go/types/typeutil'] + STD)]
 
 
 OBS_MAIN = '''package main
@@ -94,9 +95,9 @@ def main():
     obs, obsdir = reproducibility_observations(tier) if not os.environ.get('VERIF_ONLY') else ({}, None)
     rc, ev = gokernel.run_kernels('C17', kernels(), tier, write=False, extra={'reproducibility_observations': obs},
                                   title='order-canonicalisation sites under every map iteration order and every input order',
-                                  bounds={'sites with a harness': 'analysis.EscapingObjects (escaping-variable order -> identifier allocation), dce.Info.getDeps (<= 5 dependencies), sources.Sources.Sort (every permutation of 4 files)',
+                                  bounds={'sites with a harness': 'analysis.EscapingObjects (escaping-variable order -> identifier allocation), dce.Info.getDeps (<= 5 dependencies), sources.Sources.Sort (every permutation of 4 files), typeparams.InstanceSet (ids / values / ByObj in discovery order, a duplicate added at any moment)',
                                           'map iteration': 'inside the analysed call every range over a map is executed under EVERY permutation of its entries (solver-enumerated choice per position)',
-                                          'sites without a harness (reported, not claimed)': 'importDecls / updateImports / FuncLit escaping list sorting inside the translator (need a whole compile), typeparams.InstanceSet ids (insertion order)',
+                                          'sites without a harness (reported, not claimed)': 'importDecls / updateImports / FuncLit escaping list sorting inside the translator (they need a whole compile)',
                                           'outside': 'determinism of go/types and of the translator as a whole (not encodable): only observed by repeated builds'},
                                   explanation='go/ssa interpreter with symbolic map iteration order: a result that depends on the order in which a Go map is ranged over shows up as a failing permutation')
     if obs.get('failures'):
